@@ -220,11 +220,7 @@ func c5guided(r *rand.Rand, conjs []c5conj, depth int) c5data {
 		}
 	}
 	if r.IntN(10) == 0 && len(d) > 0 {
-		for k := range d {
-			if k == c5labels[r.IntN(len(c5labels))] {
-				delete(d, k)
-			}
-		}
+		delete(d, c5labels[r.IntN(len(c5labels))])
 	}
 	return d
 }
